@@ -47,10 +47,23 @@ add("C10", "model_checking",
     "Same construction as C09 for IPFIX over C05's spaces and the IPFIX grammar-product / byte-deviation families: every returned message is re-exported and compared with the header.length bytes it occupied, with per-set and per-field attribution (variable-length prefixes, enterprise bits, padding, unreported sets).",
     "trusted: reexport.rs",
     "bounded-exhaustive enumeration of call histories with a round-trip oracle (explicit-state)", "DESIGN.md §5 C10", "E-ENUM")
+add("C11", "model_checking",
+    "Every sequence of 1..=5 (thorough 6) packets over the 12-packet self-delimiting menu (all four versions, templates defined by early packets and needed by later ones, IPFIX data for an absent id) is delivered under ALL 2^(n-1) partitions into consecutive parse_bytes calls on a fresh parser; concatenated results and final cache snapshot must equal one-packet-per-call delivery. Maximal chains up to the datagram limit are compared all-in-one vs one-per-call.",
+    "sequences whose one-per-call run contains an error element are outside the property's domain (counted, not judged); trusted: c11::judge",
+    "bounded-exhaustive enumeration of sequences x all partitions (stateless exploration of real code, differential oracle)", "DESIGN.md §5 C11", "E-ENUM")
+add("C12", "model_checking",
+    "All 48 allowed-version sets (16 subsets of {5,7,9,10} x extras) x every buffer of 1..=3 (thorough 4) packets over a 16-packet menu x 4 prior cache states, each compared with a parser that allows all 65 536 versions started from the same state: result = maximal leading part with allowed versions; caches = those of the all-allowing parser fed only that part; unknown allowed versions are UnknownVersion errors.",
+    "trusted: c12::judge",
+    "bounded-exhaustive enumeration of configurations x buffers x states (differential oracle)", "DESIGN.md §5 C12", "E-ENUM")
 add("C14", "fault_enumeration",
     "Every cut point strictly inside every seed packet (V5/V7 with 0,1,2,3,30(,max) records; V9 and IPFIX template / data / template+data / options packets over all class representatives; V9 flowset boundaries excluded as the property says) alone, after a V5 packet and after the template packet it needs: the last element must be an error carrying exactly the truncated packet, earlier elements unchanged, and V5/V7/IPFIX caches unchanged.",
     "seed validity (decodes without error, single packet) is asserted at run time; trusted: c14::judge",
     "exhaustive fault (truncation point) enumeration on the real parser", "DESIGN.md §5 C14", "E-ENUM")
+
+add("C17", "model_checking",
+    "Step 0 builds the library with --no-default-features (failure is the violation). Then the default build and the feature-off build of the same harness each walk every index of C04's and C05's conformant stream spaces, recording a digest of (decoded results, re-export, common view) per index: known-only streams must agree exactly between the builds; streams with a field the library types Unknown must yield no decoded record containing it in the feature-off build (and do yield it in the default build).",
+    "trusted: c17::observe; enterprise-specific fields are outside the unknown-field clause",
+    "cross-configuration differential enumeration over the bounded stream spaces", "DESIGN.md §5 C17", "E-ENUM")
 
 ALL = ["C%02d" % i for i in range(1, 18)]
 PENDING = {}
@@ -72,7 +85,7 @@ for pid in ALL:
 na = [{"property_id": pid, "reason": PENDING.get(pid, "check not built yet in this session (planned, see DESIGN.md §5); nothing is claimed for it until it runs")} for pid in ALL if pid not in P]
 m = {
     "version": 1,
-    "setup_cmd": "cd /verif/mc && CARGO_NET_OFFLINE=true cargo build --release --offline && CARGO_NET_OFFLINE=true cargo build --offline",
+    "setup_cmd": "cd /verif/mc && CARGO_NET_OFFLINE=true cargo build --release --offline && CARGO_NET_OFFLINE=true cargo build --offline && (CARGO_NET_OFFLINE=true cargo build --release --offline --no-default-features --target-dir /verif/mc/target-nf || true)",
     "hooks": {
         "guard": "netflow_parser_verif",
         "enable": "no hooks are needed: every observation point is public API; the harness crate /verif/mc path-depends on /repo and is rebuilt by ./check on every run",
